@@ -87,6 +87,7 @@ def _kappa(rng, lead):
 
 
 _GD = [0]
+_VK = [0]
 
 
 def gen(rng, fam, tier, D=None, kind=None):
@@ -126,6 +127,12 @@ def gen(rng, fam, tier, D=None, kind=None):
         return {'fam': fam, 'covariance': cov, 'y': y}
     if fam == 'vmf':
         D = int(rng.integers(1, 9))
+        _VK[0] += 1
+        corner = None
+        if _VK[0] % 3 == 0:
+            # corners of the stated domain: largest dimensions with the smallest / largest concentration (the Bessel value
+            # I_{D/2-1}(kappa) is then as small as 1e-19 resp. as large as e^500)
+            D, corner = [(8, 1e-6), (7, 1e-6), (8, 500.0), (8, 1e-5), (2, 1e-6), (7, 3e-6)][(_VK[0] // 3) % 6]
         mean = _unit(rng, (*lead, D))
         y = rng.normal(size=(*lead, N, D)) * 10.0 ** rng.integers(-3, 4)
         if rng.random() < 0.3:     # points near the mean direction
@@ -133,6 +140,8 @@ def gen(rng, fam, tier, D=None, kind=None):
         kap = _kappa(rng, lead)
         if rng.random() < 0.2:
             kap = np.asarray(rng.integers(1, 60, size=lead), dtype=float)          # integer valued
+        if corner is not None:
+            kap = np.full(lead, corner)
         return {'fam': fam, 'mean': mean, 'concentration': kap, 'y': y}
     D = int(rng.integers(2, 7)) if D is None else D
     if fam == 'watson':
